@@ -65,8 +65,8 @@ impl Scenario for Byzantine {
 
     fn budget(&self, tier: Tier) -> u64 {
         match tier {
-            Tier::Quick => 20_000,
-            Tier::Thorough => 2_000_000,
+            Tier::Quick => 150_000,
+            Tier::Thorough => 8_000_000,
         }
     }
 
